@@ -362,7 +362,10 @@ fn body_preempt(plan: &J) {
                     None => fail("not-preempted", format!("thread {ti}: a {busy_ms} ms computation without yields was never suspended although a sibling was ready")),
                 }
                 let fin = busy.finished.unwrap_or(u64::MAX);
-                if !sibs.iter().all(|s| s.finished.is_some_and(|f| f < fin)) {
+                // (not with a coroutine that computes in a syscall state on this thread - it cannot be
+                // preempted, so a sibling that a late signal parked may wait behind it - nor with a
+                // second long computation, which has its own oracle above)
+                if !t.gb("syscall_co") && t.gu("busy2_ms") == 0 && !sibs.iter().all(|s| s.finished.is_some_and(|f| f < fin)) {
                     let tl: Vec<String> = mine.iter().map(|i| &r[*i]).map(|c| format!("{} start {:?} first-suspend {:?} end {:?}", c.kind, c.started.map(|x| (x % 1_000_000_000_000) / 1000), c.first_preempt.map(|x| (x % 1_000_000_000_000) / 1000), c.finished.map(|x| (x % 1_000_000_000_000) / 1000))).collect();
                     fail("not-preempted", format!("thread {ti}: a ready sibling finished only after the {busy_ms} ms computation; timeline (us): {tl:?}"));
                 }
